@@ -6,6 +6,7 @@ import ast
 from sa import astutil as A
 from sa import cfg as C
 from sa import dataflow as D
+from sa import surface as S
 from sa.index import AnalysisError
 from sa.rules import c03
 
@@ -22,7 +23,7 @@ EXPLANATION = (
     'defaults go through apply; (e) Enum extension validates every value '
     'against the base, Schema compatibility requires equal key sets.  The '
     'containment between acceptance sets itself is not decided.')
-FLOORS = {'C04.a': 9, 'C04.b': 6, 'C04.c': 6, 'C04.d': 1, 'C04.e': 2, 'C04.f': 4}
+FLOORS = {'C04.a': 9, 'C04.b': 6, 'C04.c': 6, 'C04.d': 1, 'C04.e': 2, 'C04.f': 4, 'C04.g': 2}
 FILES = ['pyglove/core/typing/value_specs.py', 'pyglove/core/typing/class_schema.py',
          'pyglove/core/typing/key_specs.py', 'pyglove/core/typing/type_conversion.py']
 VS = 'pyglove.core.typing.value_specs.'
@@ -477,5 +478,6 @@ def run(ctx):
   rule_d(ctx)
   rule_e(ctx)
   rule_f(ctx)
+  S.optional_truthiness_obligations(ctx, 'C04.g', ['pyglove/core/typing/value_specs.py', 'pyglove/core/typing/key_specs.py', 'pyglove/core/typing/class_schema.py'], '0 is a bound')
   ctx.assume('Callable/Functor compatibility is outside the property\'s quantifier')
   ctx.assume('user transforms cannot be compared and are ignored')
